@@ -219,6 +219,7 @@ pub fn run(e: &'static Engine) {
          SvgBuilder must be invoked exactly once per dark module at (col+margin, row+margin) with that label. Non-trivial: every \
          case; distinct by case hash.",
     );
+    e.extend_rule("the map must be the one of the REPORTED version; Clone copies byte-identical; a re-entrant callback variant (the callback builds and renders another symbol); raster callback observer.");
     e.assume("refmodel region map (drawn from the ISO figures; its Encoding count equals the geometry formula for all 40 versions)");
     crate::engine::run_regress(e, &|c, o| replay(e, c, o));
     let per: u32 = e.tier.pick(1, 6);
